@@ -546,9 +546,27 @@ impl<T: Val> Job for Own<T> {
             if g == "default" { vec!["default()".into()] } else { idx.iter().map(|i| env.un.u[*i].show()).collect() }
         });
         if shard == 0 && env.un.n() >= 9 {
-            st.sample(|| json!({"section": meta.section, "universe_size": env.un.n(),
-                "distinct_model_values": env.un.a.iter().collect::<std::collections::BTreeSet<_>>().len(),
-                "values": env.un.u.iter().take(12).map(|x| x.show()).collect::<Vec<_>>() }));
+            st.sample(|| {
+                // one concrete executed case, written out
+                let n = env.un.n();
+                let (i, j) = (n / 2, n - 1);
+                let (x, y) = (env.un.u[i].clone(), env.un.u[j].clone());
+                let mut case = json!({"x": x.show(), "y": y.show(), "model_x": mshow(&env.un.a[i]), "model_y": mshow(&env.un.a[j])});
+                if let Some(m) = env.ops.merge {
+                    let mut r = x.clone();
+                    let changed = m(&mut r, y.clone());
+                    case["x_merge_y"] = json!(r.show());
+                    case["changed"] = json!(changed);
+                }
+                if let Some(pc) = env.ops.pc {
+                    case["partial_cmp"] = json!(so(pc(&x, &y)));
+                    case["model_cmp"] = json!(so(mcmp(&env.un.a[i], &env.un.a[j])));
+                }
+                json!({"section": meta.section, "universe_size": n,
+                    "distinct_model_values": env.un.a.iter().collect::<std::collections::BTreeSet<_>>().len(),
+                    "first_values": env.un.u.iter().take(10).map(|x| x.show()).collect::<Vec<_>>(),
+                    "case": case })
+            });
         }
         st
     }
@@ -806,9 +824,23 @@ impl<T: Val, U: Val> Job for Cross<T, U> {
         let meta = Meta { section: self.section(), types: self.types(), prop: prop.into(), p };
         let groups = self.groups(prop, p);
         let mut st = drive(&meta, &groups, shard, nshards, &|g, idx| env.eval(prop, g, idx), &|g, idx| env.shows(g, idx));
-        if shard == 0 {
-            st.sample(|| json!({"section": meta.section, "universe_sizes": [env.t.n(), env.u.n()],
-                "delta_values": env.u.u.iter().take(8).map(|x| x.show()).collect::<Vec<_>>() }));
+        if shard == 0 && env.t.n() * env.u.n() >= 200 {
+            st.sample(|| {
+                let (i, j) = (env.t.n() / 2, env.u.n() - 1);
+                let (x, d) = (env.t.u[i].clone(), env.u.u[j].clone());
+                let mut case = json!({"receiver": x.show(), "delta": d.show()});
+                if let Some(m) = env.x.merge_tu {
+                    let mut r = x.clone();
+                    let changed = m(&mut r, d.clone());
+                    case["merged"] = json!(r.show());
+                    case["changed"] = json!(changed);
+                }
+                if let Some(pc) = env.x.pc_tu {
+                    case["partial_cmp"] = json!(so(pc(&x, &d)));
+                }
+                json!({"section": meta.section, "universe_sizes": [env.t.n(), env.u.n()],
+                    "delta_values": env.u.u.iter().take(8).map(|x| x.show()).collect::<Vec<_>>(), "case": case })
+            });
         }
         st
     }
